@@ -338,7 +338,7 @@ def gen_batches(rng, n_real, sizes=(4, 2, 1), masked=True, fully_masked=0.12, nf
 
 
 def configs(tier, rng):
-  n = {'quick': 20, 'thorough': 600, 'search': 600}.get(tier, 20)
+  n = {'quick': 16, 'thorough': 450, 'search': 600}.get(tier, 16)
   seeds = [rng.randrange(1, 10 ** 6) for _ in range(2 if tier == 'quick' else 10)]
   out = []
   fixed = [
